@@ -504,6 +504,26 @@ def gen_hashable(rng, depth):
     return rng.randrange(0, 10)
 
 
+def boundary_pickles():
+    """(label, bytes): plain values at the size boundaries of the pickle format and of the pickler -- the 1000-item
+    batches of lists / dicts / sets (999, 1000, 1001, 2500 items: one batch, an exact multiple with its empty
+    trailing batch, two and three batches), strings and bytes at the 255 / 256 and 65535 / 65536 length-prefix
+    steps nested inside containers, more than 255 memo entries, a value nested several levels deep"""
+    out = []
+    vals = [("set1000", set(range(1000)), (4,)), ("set1001", set(range(1001)), (2, 4)), ("set2500", set(range(2500)), (4,)),
+            ("list1001", list(range(1001)), (2,)), ("dict1001", {i: i for i in range(1001)}, (4,)),
+            ("frozenset1001", frozenset(range(1001)), (4,)),
+            ("nested-sets", [set(range(1001)), {"a": set(range(1000, 2200))}, (set(range(5)),)], (4,)),
+            ("str256-in-list", ["x" * 256, 1], (2,)), ("str257-in-list", ["x" * 257, 1], (2, 4)),
+            ("str300-in-dict-in-list", [{"k": "w" * 300}, ("z" * 300,)], (4,)), ("bytes256-in-dict", {"k": b"y" * 256}, (4,)),
+            ("memo300", [[i] for i in range(300)] + ["end"], (4,)),
+            ("deep", [[[[[[{"k": ({1, 2}, [b"b", "s"])}]]]]]], (2, 4))]
+    for label, v, protos in vals:
+        for proto in protos:
+            out.append(("%s/p%d" % (label, proto), pickle.dumps(v, protocol=proto)))
+    return out
+
+
 def natural_pickle(rng, plain=False):
     v = gen_value(rng, plain=plain)
     proto = rng.randrange(0, 6)
